@@ -118,6 +118,14 @@ def _doctype_shard(texts):
     return out, modes
 
 
+def _names_shard(cases):
+    out = []
+    for text, cont, scr in cases:
+        j = judge(text, cont, scr)
+        out.append(None if j is None else engine.Violation(H, {"theme": "NAMES", "container": cont, "scripting": scr}, text, j[2], j[3], j[0], j[1]))
+    return out
+
+
 # -- <template>: fixed witnesses -----------------------------------------------------------------------------------
 # The reference model has no "in template" insertion mode (section 9 of DESIGN.md), so template handling is not
 # explored; these hand-derived trees (template contents shown as children of the template element, as in the
@@ -223,6 +231,17 @@ def run(run):
         tot_t += n
         per["DOCTYPE/document"] = {"cases": n, "modes_expected": modes}
         run.sample({"theme": "DOCTYPE", "text": cases[len(cases) // 2]})
+    if not only or "NAMES" in only.split(","):
+        cases = tw.name_cases()
+        n = 0
+        for vs in engine.pmap(_names_shard, [cases[i:i + 400] for i in range(0, len(cases), 400)], chunksize=1):
+            for v in vs:
+                n += 1
+                if v is not None and (v.diff_class not in classes or len(v.case) < len(classes[v.diff_class].case)):
+                    classes[v.diff_class] = v
+        tot_t += n
+        per["NAMES"] = {"cases": n, "names": len(tw.ALL_NAMES), "templates": len(tw.NAME_TEMPLATES)}
+        run.sample({"theme": "NAMES", "text": cases[len(cases) // 3][0]})
     if not only or "TEMPLATE" in only.split(","):
         for text, _ in TEMPLATE_WITNESSES:
             j = judge_template(text)
